@@ -194,6 +194,8 @@ class Generator:
             rng = self.src.impl_block_containing(r"^impl<'a> SetLenOnDrop<'a>$", src_name)
         elif impl == 'free':
             rng = None
+        elif impl.startswith('re:'):
+            rng = self.src.impl_block_containing(impl[3:].replace('~', ' '), src_name)
         else:
             raise ExtractError('unknown impl kind ' + impl)
         parts = self.src.fn_parts(src_name, rng)
@@ -202,7 +204,8 @@ class Generator:
         if region:
             body = self.cut_region(body, region)
         cfg = {
-            'kind': 'footer' if impl == 'footer' else ('vec' if impl == 'vec' else (spec.get('kind') or impl)),
+            'kind': spec.get('kind') or ('footer' if impl == 'footer' else ('vec' if impl == 'vec' else impl)),
+            'drain_drop': spec.get('drain_drop'),
             'guard': spec.get('guard'),
             'strip_nested': spec.get('strip_nested'),
             'drop_takes_state': spec.get('drop_takes_state'),
@@ -362,6 +365,10 @@ class Generator:
         hits = list(re.finditer(r'\b(while|for|loop)\b[^{;]*\{', mm))
         for n in sorted(lp, reverse=True):
             if n >= len(hits):
+                if n in spec.get('optional_loops', ()):
+                    # the loop the invariant belongs to is gone: verify the body without it (its postconditions then decide)
+                    self.rule_log['loop-invariant-unused'] = self.rule_log.get('loop-invariant-unused', 0) + 1
+                    continue
                 raise ExtractError('%s: loop ordinal %d not found' % (spec['name'], n))
             o = hits[n].end() - 1
             b = b[:o] + '\n' + lp[n] + '\n' + b[o:]
@@ -396,7 +403,9 @@ class Generator:
                 m = re.match(r'//@closure (\d+):\s*(.*)$', ln)
                 cur['closures'][int(m.group(1))] = m.group(2)
             elif ln.startswith('//@loop ') and cur is not None:
-                m = re.match(r'//@loop (\d+):', ln)
+                m = re.match(r'//@loop (\d+)( optional)?:', ln)
+                if m.group(2):
+                    cur.setdefault('optional_loops', set()).add(int(m.group(1)))
                 j = i + 1
                 blk = []
                 while not lines[j].startswith('//@endloop'):
